@@ -439,6 +439,11 @@ def generate(run_index, seed, tier):
         files = _file_subset(g, 2, 3)
         if g.chance(0.6):
             phases.append({"procs": [_proc(g, "populate")], "gap": round(g.uniform(0, 100), 3)})
+        if g.chance(0.3):
+            # a caller that uses CacheLock(write_time=True) directly, the object made some time before it is entered
+            h_ = _proc(g, "hold", dir="cache", steps=g.randrange(1, 4), write_time=True, hold_sleep=0,
+                       pre_sleep=g.pick([0, 200.0, 1000.0, 1700.0]))
+            phases.append({"procs": [h_], "gap": g.pick([60.0, 600.0, 1000.0])})
         for _ in range(g.randrange(1, 5)):
             r = _proc(g, "refresh", net=g.chance(0.6))
             if g.chance(0.3):
@@ -571,19 +576,20 @@ class _Env:
             p = sim.current()
             pid = p.pid if p else -1
             t0 = sim.monotonic()
+            wall0 = sim.now
             s0 = sim.record("cl-enter-call", fs_rel(self.fs, lock_self.cache_folder))
             stamp0 = _read_stamp(lock_self.cache_folder)
             try:
                 r = orig_enter(lock_self)
             except BaseException as e:
                 events.append({"ev": "enter-raised", "pid": pid, "dir": os.path.realpath(lock_self.cache_folder), "seq": sim.seq,
-                               "t0": t0, "t1": sim.monotonic(), "exc": type(e).__name__, "msg": str(e)[:200], "seq0": s0,
+                               "t0": t0, "t1": sim.monotonic(), "exc": type(e).__name__, "msg": str(e)[:200], "seq0": s0, "wall0": wall0,
                                "stamp0": stamp0, "write_time": lock_self.write_time})
                 sim.record("cl-enter-raised", fs_rel(self.fs, lock_self.cache_folder), type(e).__name__)
                 raise
             s = sim.record("cl-enter-returned", fs_rel(self.fs, lock_self.cache_folder))
             events.append({"ev": "enter-returned", "pid": pid, "dir": os.path.realpath(lock_self.cache_folder), "seq": s,
-                           "t0": t0, "t1": sim.monotonic(), "obj": id(lock_self), "seq0": s0,
+                           "t0": t0, "t1": sim.monotonic(), "obj": id(lock_self), "seq0": s0, "wall0": wall0,
                            "stamp0": stamp0, "write_time": lock_self.write_time})
             return r
 
@@ -716,7 +722,10 @@ def _actor(kind, args, W, sim, root, peer):
 
         def hold():
             try:
-                with hl.CacheLock(d, write_time=args.get("write_time", False)):
+                lock = hl.CacheLock(d, write_time=args.get("write_time", False))
+                if args.get("pre_sleep"):
+                    sim.sleep(args["pre_sleep"])         # the object was made some time before it is entered
+                with lock:
                     for _ in range(args["steps"]):
                         sim.yield_point("hold", args["dir"], None)
                     if args.get("hold_sleep"):
@@ -1069,8 +1078,13 @@ def _check_history(W, sc, sim, events, procs_meta, violations, probe, lockworld,
     # was entered (the oracle's own record, not the content of last_update.txt - a timestamp written in another
     # representation than the one read back must not defeat the interval)
     def _enter_clock(e):
-        reads = [h for h in hist if h[1] == e["pid"] and h[3] == "clock-read" and h[0] > e["seq0"]]
-        return (reads[0][5], max(reads[0][0], e["seq"])) if reads else (None, None)
+        # the clock value the library read while entering; if it read none there, the wall clock at the call
+        reads = [h for h in hist if h[1] == e["pid"] and h[3] == "clock-read" and e["seq0"] < h[0] <= e["seq"]]
+        if reads:
+            return reads[0][5], max(reads[0][0], e["seq"])
+        if e.get("wall0") is not None:
+            return e["wall0"], e["seq"]
+        return None, None
     completed = []
     for x in events:
         if x["ev"] == "exit-returned" and x.get("write_time"):
